@@ -497,6 +497,11 @@ class Zeroconf(QuietLogger):
         for info in service_infos:
             self._add_broadcast_answer(out, info, 0)
         self.registry.async_remove(service_infos)
+        # Answers for these services that are still waiting in the multicast
+        # queues would otherwise be sent with their full TTL after the goodbye
+        withdrawn = [answer for answer, _ in out.answers]
+        self.out_queue.async_remove_records(withdrawn)
+        self.out_delay_queue.async_remove_records(withdrawn)
         return out
 
     async def async_unregister_all_services(self) -> None:
@@ -507,13 +512,16 @@ class Zeroconf(QuietLogger):
         awaited since its only called at shutdown.
         """
         # Send Goodbye packets https://datatracker.ietf.org/doc/html/rfc6762#section-10.1
-        out = self.generate_unregister_all_services()
-        if not out:
-            return
-        for i in range(_REGISTER_BROADCASTS):
-            if i != 0:
-                await asyncio.sleep(millis_to_seconds(_UNREGISTER_TIME))
-            self.async_send(out)
+        # A registration that finishes probing while the goodbyes are going out
+        # is announced, keep going until there is nothing left to withdraw
+        while True:
+            out = self.generate_unregister_all_services()
+            if not out:
+                return
+            for i in range(_REGISTER_BROADCASTS):
+                if i != 0:
+                    await asyncio.sleep(millis_to_seconds(_UNREGISTER_TIME))
+                self.async_send(out)
 
     def unregister_all_services(self) -> None:
         """Unregister all registered services.
